@@ -38,7 +38,8 @@ def mpctx(prec):
     return _MPCTX[prec]
 
 
-def check_mpf2float(fb, sign, man, exp, ctxprec):
+def check_mpf2float(fb, sign, man, exp, ctxprec, flush=None):
+    """flush: None = argument omitted (documented default: no flushing), False, True"""
     from functional_algorithms import utils
 
     f = flt.FMT[fb]
@@ -47,9 +48,10 @@ def check_mpf2float(fb, sign, man, exp, ctxprec):
     x = make_mpf(mpctx(ctxprec), sign, man, exp)
     with np.errstate(all="ignore"):
         try:
-            r = utils.mpf2float(dtype, x)
+            r = utils.mpf2float(dtype, x) if flush is None else utils.mpf2float(dtype, x, flush_subnormals=flush)
         except Exception as e:
             return [("mpf2float/raises/%s" % type(e).__name__, "mpf2float(%s, man=%d exp=%d) raised %r" % (f.name, man, exp, e))]
+    fl = "" if flush is None else "/flush-%s" % flush
     if type(r) is not dtype:
         return [("mpf2float/dtype", "returned %s" % type(r).__name__)]
     rb = flt.scalar_bits(r)
@@ -64,17 +66,33 @@ def check_mpf2float(fb, sign, man, exp, ctxprec):
             return [("mpf2float/underflow-signed-zero", "mpf2float(%s, %s%d*2^%d)=%r, expected %s0" % (f.name, "-" if sign else "", man, exp, r, "-" if sign else ""))]
         return []
     if (want & ~f.sign_mask) >= f.smallest_normal_bits:
+        if flush is True and rb == (f.sign_mask if sign else 0):
+            # flushing is decided on the value rounded to p bits with unbounded exponent ("tiny after rounding", as the
+            # hardware does): a value that is still below the smallest normal then, e.g. (2^p - 1) 2^(emin-p), may be
+            # flushed although round-to-nearest on the subnormal lattice would carry it up to the smallest normal
+            e = aq.numerator.bit_length() - aq.denominator.bit_length()
+            if Fraction(2) ** e > aq:
+                e -= 1
+            u = Fraction(2) ** (e - f.p + 1)
+            k = aq / u
+            kf = k.numerator // k.denominator
+            rem = k - kf
+            kf += 1 if (rem > Fraction(1, 2) or (rem == Fraction(1, 2) and kf % 2 == 1)) else 0
+            if kf * u < f.smallest_normal:
+                return []
         if rb != want:
             tie = "tie" if (q / flt.ulp_frac(q, f) * 2).denominator == 1 and (q / flt.ulp_frac(q, f)).denominator != 1 else "nontie"
             edge = "overflow-edge" if aq > f.largest else "interior"
             return [
                 (
-                    "mpf2float/normal-not-nearest/%s/%s" % (tie, edge),
-                    "mpf2float(%s, %s%d*2^%d)=%r, correctly rounded is %r" % (f.name, "-" if sign else "", man, exp, r, flt.bits_scalar(want, f)),
+                    "mpf2float/normal-not-nearest/%s/%s%s" % (tie, edge, fl),
+                    "mpf2float(%s, %s%d*2^%d%s)=%r, correctly rounded is %r" % (f.name, "-" if sign else "", man, exp, ", flush_subnormals=%s" % flush if flush is not None else "", r, flt.bits_scalar(want, f)),
                 )
             ]
         return []
-    return []  # subnormal result: nothing is claimed
+    if flush is True and 0 < (rb & ~f.sign_mask) < f.smallest_normal_bits:
+        return [("mpf2float/subnormal-returned-with-flush", "mpf2float(%s, %s%d*2^%d, flush_subnormals=True)=%r is subnormal" % (f.name, "-" if sign else "", man, exp, r))]
+    return []  # subnormal result: nothing else is claimed
 
 
 @st.composite
@@ -120,7 +138,8 @@ def mpf_cases(draw):
     exp = top - (man.bit_length() - 1)
     sign = draw(st.integers(0, 1))
     ctxprec = draw(st.sampled_from([p, 53, 113, 300]))
-    return (fb, sign, man, exp, ctxprec)
+    flush = draw(st.sampled_from([None, None, False, True, True]))
+    return (fb, sign, man, exp, ctxprec, flush)
 
 
 # ---------------------------------------------------------------- part B
@@ -332,7 +351,7 @@ def backend_cases(draw):
 def replay(case):
     k = case["kind"]
     if k == "mpf2float":
-        return check_mpf2float(case["fmt"], case["sign"], int(case["man"]), case["exp"], case["ctxprec"])
+        return check_mpf2float(case["fmt"], case["sign"], int(case["man"]), case["exp"], case["ctxprec"], case.get("flush"))
     if k == "backend":
         p = dict(case["params"])
         return check_backend(case["name"], p, case["fmt"], case["xbits"], case["as_array"], case.get("cplx", False))
@@ -347,18 +366,19 @@ def _mpf_shard(task):
     sub = Ctx("C15", "quick", seed * 64 + shard, known)
 
     def body(case, part):
-        fb, sign, man, exp, cp = case
+        fb, sign, man, exp, cp, flush = case
         f = flt.FMT[fb]
         q = Fraction(man) * Fraction(2) ** exp
         region = "overflow" if q >= f.overflow_threshold else ("underflow" if q < f.smallest_subnormal / 2 else ("subnormal" if q < f.smallest_normal else "normal"))
         part.count(1, "mpf2float/f%d/%s" % (fb, region))
+        part.label("mpf2float/flush-%s" % flush)
         if man.bit_length() > f.p and region != "subnormal":
             part.nontrivial(("m", fb, sign, man, exp))
         if len(part.samples) < 1:
             part.sample({"kind": "mpf2float", "fmt": fb, "sign": sign, "man": hex(man), "exp": exp, "region": region})
-        return check_mpf2float(fb, sign, man, exp, cp)
+        return check_mpf2float(fb, sign, man, exp, cp, flush)
 
-    hyp.drive(sub, mpf_cases(), body, n, name="mpf2float", encode=lambda c: {"kind": "mpf2float", "fmt": c[0], "sign": c[1], "man": str(c[2]), "exp": c[3], "ctxprec": c[4]}, stream=shard)
+    hyp.drive(sub, mpf_cases(), body, n, name="mpf2float", encode=lambda c: {"kind": "mpf2float", "fmt": c[0], "sign": c[1], "man": str(c[2]), "exp": c[3], "ctxprec": c[4], "flush": c[5]}, stream=shard)
     p = Partial()
     p.merge(sub)
     return p
